@@ -108,6 +108,11 @@ pub fn make_style(template: &str, obs: &Arc<StdMutex<ObsShared>>, obs_text: &str
 // Stage
 // ------------------------------------------------------------------------------------------
 
+thread_local! {
+    /// the console::Term of the current stage's pty (pty mode only)
+    static PTY_TERM: std::cell::RefCell<Option<console::Term>> = const { std::cell::RefCell::new(None) };
+}
+
 pub struct Slot {
     pub handles: Vec<ProgressBar>,
     pub abs: BarAbs,
@@ -177,6 +182,10 @@ pub struct OpResult {
 }
 
 fn target_for(term: &SimTerm, hz: u64) -> ProgressDrawTarget {
+    if let Some(ct) = PTY_TERM.with(|c| c.borrow().clone()) {
+        // pty mode: a real console::Term on the slave side (always rate limited)
+        return ProgressDrawTarget::term(ct, hz.clamp(1, 255) as u8);
+    }
     if hz > 0 {
         ProgressDrawTarget::term_like_with_hz(Box::new(term.clone()), hz.min(255) as u8)
     } else {
@@ -189,7 +198,16 @@ impl Stage {
         let w = sc.c("w").max(1) as usize;
         let h = sc.c("h").max(1) as usize;
         let mut term = SimTerm::new(w as u16, h as u16);
-        if sc.c("xcheck") == 1 {
+        PTY_TERM.with(|c| *c.borrow_mut() = None);
+        if sc.c("pty") == 1 {
+            match SimTerm::new_pty(w as u16, h as u16) {
+                Some((t, ct)) => {
+                    term = t;
+                    PTY_TERM.with(|c| *c.borrow_mut() = Some(ct));
+                }
+                None => {} // pty unavailable: plain SimTerm (counted by the caller)
+            }
+        } else if sc.c("xcheck") == 1 {
             term = term.with_xcheck();
         }
         if std::env::var_os("VERIF_TRACE").is_some() {
@@ -218,7 +236,7 @@ impl Stage {
             removed_since_paint: false,
             w,
             h,
-            hz,
+            hz: if sc.c("pty") == 1 { hz.clamp(1, 255) } else { hz },
             bottom: sc.c("bottom") == 1,
             bottom_ever: sc.c("bottom") == 1,
             rules,
@@ -373,6 +391,13 @@ impl Stage {
             calls: 0,
         };
         let k = op.k.as_str();
+        if self.term.is_pty() && matches!(k, "iter_exhaust" | "iter_partial" | "burn" | "suspend" | "mp_suspend" | "sleep" | "enable_steady_tick") {
+            // pty mode observes frames per call (bytes arriving on the master side); calls that
+            // paint several frames, or whose closure writes to the SimTerm directly, are left out
+            res.skipped = true;
+            self.skipped_ops += 1;
+            return res;
+        }
         // texts must stay inside the generated family (the minimiser shrinks strings)
         for t in &op.s {
             if !escapes_well_formed(t) {
@@ -896,7 +921,8 @@ impl Stage {
         }
         let forced_mp = matches!(op.k.as_str(), "mp_println" | "mp_suspend" | "mp_clear");
         let forced = forced_mp || bar.map_or(false, |(_, f, _)| f);
-        if self.rules.forced_paint && forced && !res.flushed {
+        // (pty mode sees frames as bytes on the master side: an empty forced frame is invisible)
+        if self.rules.forced_paint && forced && !res.flushed && !self.term.is_pty() {
             r.violate(
                 &format!("{prop}.forced_paint"),
                 format!("{at}: a forced call painted no frame (no flush reached the terminal)"),
@@ -1233,6 +1259,7 @@ impl Stage {
             s.handles.clear();
         }
         self.mp = None;
+        PTY_TERM.with(|c| *c.borrow_mut() = None);
     }
 }
 
